@@ -4,8 +4,9 @@ Copies a confirmed sub-agent change from /tmp/seed/out into /verif/seeded/<PROP>
 import sys, os, shutil, json, glob
 prop, var, detected = sys.argv[1:4]
 needs = " ".join(sys.argv[4:])
-src = f"/tmp/seed/out/{prop}/{var}"
-dst = f"/verif/seeded/{prop}-{var}"
+import os as _os
+src = _os.environ.get("SEEDDIR","/tmp/seed/out") + f"/{prop}/{var}"
+dst = f"/verif/seeded/{prop}-" + _os.environ.get("SEEDNAME", var)
 os.makedirs(dst, exist_ok=True)
 for f in glob.glob(src + "/*"):
     if os.path.basename(f).startswith("run_"): continue
